@@ -449,6 +449,28 @@ def build_params(repo):
         ('coupl', [('min_interaction_energy', '0.2'), ('min_swap_pka_shift', '0.3')], 'looser coupling thresholds'),
     ]
     params = [{'id': 'default', 'text': None, 'note': 'shipped file (no -p)'}]
+    # additions: entries for dictionary/list keywords the parser accepts,
+    # including ones the shipped file leaves empty (only keywords the working
+    # tree's parser still declares are used)
+    try:
+        with open(os.path.join(repo, 'propka', 'parameters.py')) as fh:
+            declared = fh.read()
+    except OSError:
+        declared = ''
+    additions = [
+        ('vale', ['valence_electrons N 6', 'valence_electrons C 3', 'valence_electrons O 7'],
+         'valence electron overrides'),
+        ('cust', ['custom_model_pkas ASP-CG 4.20', 'custom_model_pkas HIS-CG 7.10',
+                  'custom_model_pkas LYS-NZ 10.10'], 'custom model pKa entries'),
+        ('ionz', ['ions ZN 1', 'ions XE 1', 'ignore_residues EOH'], 'other ion charges, extra ignorable residue'),
+        ('bbhb', ['backbone_NH_hydrogen_bond HIS -0.40 2.00 3.00', 'exclude_sidechain_interactions TYR',
+                  'COO_HIS_exception 1.20', 'coulomb_diel 60.0'], 'other hydrogen-bond tables'),
+    ]
+    for pid, lines, note in additions:
+        use = [ln for ln in lines if ln.split()[0] in declared]
+        if use:
+            params.append({'id': pid, 'text': base.rstrip('\n') + '\n' + '\n'.join(use) + '\n',
+                           'note': note})
     for pid, es, note in edits:
         t = base
         for k, v in es:
